@@ -1329,7 +1329,7 @@ class BaseRequest:
         except ValueError:
             raise ValueError("Bad HTTP request line: %r" % start_line)
         r = cls(
-            environ_from_url(resource), http_version=http_version, method=method.upper()
+            environ_from_url(resource), http_version=http_version, method=method
         )
         del r.environ["HTTP_HOST"]
 
